@@ -5,7 +5,7 @@ Line protocol for C02 (stream energy balance; `Float` instance of the model).
 
   mix  r=<st> rp=<chars> ins=<inlet>;… Q=<f> cp=<0|1> kind=H sol=<sol>;…
   set  r=<st> x=<f> kind=<H|h|S|Sg> sol=…
-  sep  r=<st> Hs=<f> Ho=<f> none=<0|1> same=<0|1> ea=<0|1> kind=H sol=…
+  sep  r=<st> Hs=<f> Ho=<f> none=<0|1> oe=<other empty 0|1> same=<0|1> ea=<empty afterwards 0|1> kind=H sol=…
 
   <st>    = <ph>/<T>/<P>/<empty 0|1>
   <ph>    = one phase letter (a Stream) | `*` followed by the phase letters (a MultiStream)
@@ -173,11 +173,12 @@ def stepSep (toks : List String) : Option String := do
   let Hs ← (kv toks "Hs") >>= parseFloat?
   let Ho ← (kv toks "Ho") >>= parseFloat?
   let nn ← (kv toks "none") >>= parseBool?
+  let oe ← (kv toks "oe") >>= parseBool?
   let same ← (kv toks "same") >>= parseBool?
   let ea ← (kv toks "ea") >>= parseBool?
   let kind ← kv toks "kind"
   let calls ← (kv toks "sol") >>= parseList? parseCall?
-  let o := separateOut (solverOf calls) r Hs Ho nn same ea
+  let o := separateOut (solverOf calls) r Hs Ho nn oe same ea
   let H : Float := match o.target with
     | some h => h
     | none => Hs
